@@ -82,13 +82,12 @@ ValidExtendTrim(pop, new, N, out) ==
     ELSE ValidSortTrim(pop \o new, N, out)          \* indexes into pop \o new
 ValidReplaceTrim(new, N, out) == ValidSortTrim(new, N, out)
 
-\* groups: n_groups slices of n_agents consecutive agents + one residual group holding the last
-\* (N mod n_groups) agents when that is not zero; groups are copies, the population is untouched
+\* groups: n_groups slices of n_agents consecutive agents + one residual group holding the agents the groups
+\* leave over (size - n_groups * n_agents of them, the last ones) when there are any; no agent is lost or duplicated
 ValidGroups(size, ng, na, resid, out) ==
-    LET r == size % ng
-        want == IF resid /\ r # 0 THEN ng + 1 ELSE ng
+    LET r == size - ng * na
+        want == IF resid /\ r > 0 THEN ng + 1 ELSE ng
     IN /\ Len(out) = want
        /\ \A g \in 1..ng : out[g] = [k \in 1..MinN(na, IF size - (g-1)*na > 0 THEN size - (g-1)*na ELSE 0) |-> (g-1)*na + k]
        /\ (want = ng + 1) => out[ng + 1] = [k \in 1..r |-> size - r + k]
-
 =============================================================================
